@@ -567,7 +567,7 @@ def _set_visible_scopes_for_type_definition(type_definition, visible_scopes):
 
 
 def _set_visible_scopes_for_module(module):
-    """Sets visible_scopes for the given module."""
+    """Sets current_scope and visible_scopes for the given module."""
     self_scope = ir_data.CanonicalName(module_file=module.source_file_name)
     extra_visible_scopes = []
     for foreign_import in module.foreign_import:
@@ -578,7 +578,11 @@ def _set_visible_scopes_for_module(module):
             extra_visible_scopes.append(
                 ir_data.CanonicalName(module_file=foreign_import.file_name.text)
             )
-    return {"visible_scopes": (self_scope,) + tuple(extra_visible_scopes)}
+    return {
+        # Names in module-level attributes are looked up in the module itself.
+        "current_scope": self_scope,
+        "visible_scopes": (self_scope,) + tuple(extra_visible_scopes),
+    }
 
 
 def _set_visible_scopes_for_attribute(attribute, field, visible_scopes):
